@@ -92,6 +92,8 @@ var fuzzRules = []string{
 	`{type: ""}`, `{type: "@"}`, `{type: "@t0"}`, `{type: "nope"}`, `{or: []}`, `{or: [""]}`, `{or: [{type: ""}]}`, `{enum: []}`, `{enum: ""}`,
 	`{enum: @}`, `{min: "a"}`, `{min: }`, `{regex: ""}`, `{regex: "("}`, `{allOf: ""}`, `{allOf: []}`, `{allOf: "@t0"}`, `{additionalProperties: "x"}`,
 	`{additionalProperties: "@t0"}`, `{optional: 1}`, `{const: ""}`, `{}`, `{`, `{nullable: true, nullable: true}`, `{minLength: -1}`, `{precision: 999}`,
+	`{or: [{min: 1}, {type: "string"}]}`, `{or: [{type: "integer"}, {minLength: 1}]}`, `{or: [@t0, {max: 5}]}`, `{or: ["@t0", "string"]}`, `{or: [{}]}`,
+	`{or: [{type: "@t0"}, {type: "@t1"}]}`, `{or: [{enum: [1, 2]}, {type: "string"}]}`, `{type: "@t0 | @t1"}`,
 	`{type: "enum"}`, `{type: "mixed"}`, `{type: "any"}`, `{serializeFormat: ""}`, `{minItems: 5}`, `{type: "array"}`, `{type: "object"}`,
 }
 
@@ -382,6 +384,9 @@ func generateDoc(r *rng, cfg genCfg) *Doc {
 		u := &Node{KW: "URL", Params: path}
 		if withID && r.chance(600) {
 			pb := []string{"{", `  "id": 1`, "}"}
+			if cfg.RuleFuzz && r.chance(500) {
+				pb = []string{"{", `  "id": 1 // ` + fuzzRules[r.n(len(fuzzRules))], "}"}
+			}
 			if cfg.PathBodyFuzz {
 				switch r.n(7) {
 				case 0:
